@@ -1,6 +1,6 @@
 import PySMT.Spec.StrictSolver
 /-!
-# Model of `pysmt/smtlib/solver.py: SmtLibSolver` (the repaired wrapper, F23/F34/F35) and of the
+# Model of `pysmt/smtlib/solver.py: SmtLibSolver` (the repaired wrapper, F23/F34/F35/F38) and of the
   base-class shortcuts `pysmt/solvers/solver.py: Solver.is_sat / is_valid / is_unsat` with
   `pysmt/decorators.py: clear_pending_pop`.
 
@@ -75,6 +75,8 @@ instance : Monad (M S) where
 def throw (e : Err) : M S α := fun w => (w, .error e)
 def get : M S (WState S) := fun w => (w, .ok w)
 def modify (f : WState S → WState S) : M S Unit := fun w => (f w, .ok ())
+/-- `try: m finally: fin` for a clean-up that only assigns attributes -/
+def tryFinally (m : M S α) (fin : WState S → WState S) : M S α := fun w => ((fin (m w).1), (m w).2)
 end M
 
 variable {S : Solver}
@@ -208,13 +210,11 @@ def getModel : M S (List (Sym × String)) := do
   let w ← M.get
   getValues (w.vars.reverse.flatMap id)
 
-/-- `Solver.is_sat(formula)` in incremental mode (`pysmt/solvers/solver.py`) -/
+/-- `Solver.is_sat(formula)` in incremental mode (`pysmt/solvers/solver.py`; F38: `pending_pop` is set in a
+    `finally` clause, i.e. also when `add_assertion` or `solve` raise) -/
 def isSat (e : Expr) : M S Bool := do
   push 1
-  addAssertion e
-  let res ← solve
-  M.modify fun w => { w with pendingPop := true }
-  pure res
+  M.tryFinally (do addAssertion e; solve) (fun w => { w with pendingPop := true })
 
 /-- `_exit` -/
 def exitBody : M S Unit := do
